@@ -446,6 +446,22 @@ func simC13v4(c *sim.Ctx) {
 	}
 }
 
+// tiled reports whether p is a row of whole received fragments, the first at
+// offset 0, each starting where the one before ends.
+func tiled(p []byte, recv []*frag) bool {
+	byOff := append([]*frag(nil), recv...)
+	sort.SliceStable(byOff, func(i, j int) bool { return byOff[i].off < byOff[j].off })
+	reach := map[int]bool{0: true}
+	for _, r := range byOff {
+		// (every fragment has at least one byte, so one pass in offset order does)
+		e := r.off + len(r.payload)
+		if reach[r.off] && !reach[e] && e <= len(p) && bytes.Equal(p[r.off:e], r.payload) {
+			reach[e] = true
+		}
+	}
+	return reach[len(p)]
+}
+
 func covered(recv []*frag, total int) bool {
 	cov := make([]bool, total)
 	final := false
@@ -499,6 +515,19 @@ func checkOut4(c *sim.Ctx, out *layers.IPv4, in *inst, dgs []*datagram, completi
 	}
 	if out.Flags&layers.IPv4MoreFragments != 0 || out.FragOffset != 0 {
 		c.Fail("reassembly", "frag-fields-set", "DefragIPv4", "returned datagram has flags %v offset %d", out.Flags, out.FragOffset)
+	}
+	// "conflicting overlaps give an error or nothing": the result is either a
+	// row of whole received fragments laid end to end, or - if some fragment was
+	// used in part - no received fragment disagrees with it anywhere
+	if !tiled(out.Payload, in.recv) {
+		c.Probe("result_uses_partial_fragments")
+		for _, r := range in.recv {
+			for i, b := range r.payload {
+				if r.off+i < len(out.Payload) && out.Payload[r.off+i] != b {
+					c.Fail("hostile", "conflicting-overlap-reassembled", "DefragIPv4", "returned a datagram of %d bytes put together from parts of overlapping fragments although the fragment at offset %d (%d bytes) says something else at byte %d (%d fragments received)", len(out.Payload), r.off, len(r.payload), r.off+i, len(in.recv))
+				}
+			}
+		}
 	}
 	if in.mixed {
 		c.Probe("hostile_set_reassembled")
